@@ -63,8 +63,8 @@ CLAIMED.update({
  "C13": {
   "engine": "ledgerh+CheckLedger",
   "technique": "Coq: parking/reporting, bounds, retry = admission path, invalid never admitted, nothing admitted twice (invariants over all sequences); permutation confluence decided by the model-vs-code acceptor over seeded (quick) / many (thorough) delivery permutations plus a final-ledger monitor against parents-first delivery",
-  "text": "C13_unknown_parent_reported_and_parked, C13_buffer_and_retry_bounds (constants regenerated from the source), C13_retry_is_admission_path, C13_invalid_never_admitted, C13_nothing_admitted_twice, C13_retry_respects_funds. Order-independence of the final ledger (confluence) is not proved in Coq: it is checked by running the real ledger over permutations of a valid vertex set with duplicates, interleaved proposals and retries, comparing the final vertex/edge/index sets with parents-first delivery, and every step with the model.",
-  "note": LEDGER_NOTE + " Confluence is validated, not proved (partial).", "design_ref": "6 C13",
+  "text": "C13_unknown_parent_reported_and_parked, C13_buffer_and_retry_bounds (constants regenerated from the source), C13_retry_is_admission_path, C13_invalid_never_admitted, C13_nothing_admitted_twice, C13_retry_respects_funds. C13_order_independence_refuted: the final ledger DOES depend on the order of independent vertices when a heavy tip raises the node's weight before a light tip is validated (KNOWN-FINDING not-confluent:weight-window, reproduced on the real code on every run). For histories with ordinary weights order-independence is not proved in Coq: it is checked by running the real ledger over permutations of a valid vertex set with duplicates, interleaved proposals and retries, comparing the final vertex/edge/index sets with parents-first delivery, and every step with the model.",
+  "note": LEDGER_NOTE + " Confluence is refuted in general (weight window) and, for ordinary weights, validated on permutations, not proved (partial).", "design_ref": "6 C13",
  },
  "C14": {
   "engine": "ledgerh+CheckLedger",
